@@ -373,6 +373,31 @@ def oracle_native(fn, arg, f1, f2, acyclic):
 # ------------------------------------------------------------------ real Solver dispatch, observed at the entry points
 
 
+class _Timeout(Exception):
+    pass
+
+
+class _deadline:
+    """Wall-clock guard around a call into the real code (main thread only)."""
+
+    def __init__(self, seconds):
+        self.seconds = seconds
+
+    def __enter__(self):
+        import signal
+
+        def on_alarm(signum, frame):
+            raise _Timeout()
+        self.old = signal.signal(signal.SIGALRM, on_alarm)
+        signal.setitimer(signal.ITIMER_REAL, self.seconds)
+
+    def __exit__(self, *a):
+        import signal
+        signal.setitimer(signal.ITIMER_REAL, 0)
+        signal.signal(signal.SIGALRM, self.old)
+        return False
+
+
 class _Recorder:
     def __init__(self):
         self.events = []
@@ -450,13 +475,18 @@ def real_dispatch(arg, default, path, method):
         x = s.bool_var()
         y = s.int_var(0, 2)
         s.ensure(x.then(y >= 1))
+        s.ensure(x, ~x)          # unsatisfiable: every backend answers after one call, no enumeration loop
         s.add_answer_key(x)
         backend = None if arg is None else (arg[1] if arg[0] == "name" else Mock)
         try:
             with warnings.catch_warnings():
                 warnings.simplefilter("ignore")
-                getattr(s, method)(backend) if backend is not None and method == "find_answer" and False else \
-                    getattr(s, method)(backend=backend)
+                with _deadline(20):
+                    res = getattr(s, method)(backend=backend)
+            if res is not False:
+                return ["bad", f"unsatisfiable problem reported as {res!r}"]
+        except _Timeout:
+            return ["bad", f"no answer within 20 s; entry points so far {rec.events[:3]}"]
         except Exception as e:
             if rec.events:
                 return ["bad", f"{core.err_name(e)} after entry points {rec.events[:3]}"]
@@ -528,7 +558,7 @@ def real_graph(variant, arg, f1, f2, acyclic, seed):
     kw = {} if arg == "omit" else {"use_graph_primitive": arg}
 
     def build(s):
-        bs = [s.bool_var() for _ in range(max(1, n, m))]
+        bs = [s.bool_var() for _ in range(max(4, n, m))]
         ints = [s.int_var(0, 2) for _ in range(max(1, n))]
         if variant == "_avc":
             return lambda: G._active_vertices_connected(s, bs[:n], mk, acyclic=acyclic, **kw)
@@ -563,7 +593,8 @@ def real_graph(variant, arg, f1, f2, acyclic, seed):
         raise KeyError(variant)
     try:
         cfg.use_graph_primitive, cfg.use_graph_division_primitive = f1, f2
-        r = graphs.capture(build)
+        with _deadline(20):
+            r = graphs.capture(build)
     finally:
         cfg.use_graph_primitive, cfg.use_graph_division_primitive = saved
     if r[0] == "err":
